@@ -43,6 +43,7 @@ type VerifC11Spec struct {
 	Resp    string         `json:"resp"`    // ok | okcert | garbage | oversize | zero | cut | never
 	Cut     int            `json:"cut"`     // resp=cut: only the first Cut bytes of the well-formed response (without certificate), then EOF
 	RespLen int            `json:"respLen"` // length of that well-formed response as the generator believes it (checked)
+	KnownFailing []string  `json:"knownFailing,omitempty"` // patterns marking cases known-failing (used by C04's batch ops)
 	RawReq  bool           `json:"rawReq,omitempty"`  // the test cases carry a raw HTTP request (server-mode suites)
 	ExitNil bool           `json:"exitNil,omitempty"` // the server process ends with a nil result (exit status 0) instead of an error
 	Dies    int            `json:"dies"`    // -1: never; k >= 0: the server process dies once k requests were handed to the client
@@ -401,7 +402,11 @@ func verifC11Run(spec VerifC11Spec) (VerifC11Obs, *testResults) {
 			ExpectedResponse: &conformancev1.ClientResponseResult{Payloads: []*conformancev1.ConformancePayload{{Data: []byte("data")}}},
 		}
 	}
-	results := newResults(len(cases), &testTrie{}, &testTrie{}, nil)
+	kf := parsePatterns(spec.KnownFailing)
+	if kf == nil {
+		kf = &testTrie{}
+	}
+	results := newResults(len(cases), kf, &testTrie{}, nil)
 	printer := &verifC11Printer{}
 	var procMu sync.Mutex
 	var proc *verifC11Proc
